@@ -536,6 +536,10 @@ class CallMixin:
             if c is None:
                 raise Unsupported(f"call() of {finfo.key}: no contract")
             return self.apply_contract(c, finfo, fv.bound_self, args, kwargs, lineno)
+        if finfo.kind == "nested" and c is not None and not (
+                caller_contract is not None and (finfo.name in caller_contract.inline or finfo.key in caller_contract.inline)):
+            # a nested closure that has its own contract (recursive visitors): applied, not inlined
+            return self.apply_contract(c, finfo, None, args, kwargs, lineno, closure=fv.closure)
         if not inline_ok:
             if c is not None:
                 return self.apply_contract(c, finfo, fv.bound_self, args, kwargs, lineno)
@@ -709,9 +713,15 @@ class CallMixin:
             self.spec_depth -= 1
         raise Unsupported(f"{c.target}: spec {name} returns nothing")
 
-    def apply_contract(self, c, finfo, bound_self, args, kwargs, lineno):
+    def apply_contract(self, c, finfo, bound_self, args, kwargs, lineno, closure=None):
         params = self.bind_params(finfo, bound_self, args, kwargs, lineno)
         params = {k: self.adapt_arg(v, c.types.get(k)) for k, v in params.items()}
+        free = list(c.opts.get("free", ())) if finfo.kind == "nested" else []
+        for n in free:
+            v = closure.lookup(n) if closure is not None else None
+            if v is None:
+                raise Unsupported(f"{c.target}: free variable {n!r} is not bound in the enclosing scope at this call")
+            params[n] = self.adapt_arg(v, c.types.get(n))
         memo = {}
         old = VRec(Rec("old"), {k: v.clone(memo) for k, v in params.items()})
         from . import effects
@@ -754,6 +764,18 @@ class CallMixin:
                     if self.decide(b):
                         self.raise_by_contract(c, cls, params, old, lineno)
         for path in c.modifies:
+            if path in free and isinstance(params[path], (VInt, VBool, VStr, VOpt, VNone)):
+                # a rebound (nonlocal) variable of the enclosing scope: forget its value there
+                nv = c.types[path].fresh(path)
+                self.on_fresh(nv)
+                f = closure
+                while f is not None and path not in f.env:
+                    f = f.parent
+                if f is None:
+                    raise Unsupported(f"{c.target}: free variable {path!r} not found in the enclosing scope")
+                f.env[path] = nv
+                params[path] = nv
+                continue
             self.havoc_path(params, path, c, lineno)
         if "value" in c.methods:
             # functional contract: the result IS the spec value (usable under binders, no fresh symbol)
@@ -870,8 +892,12 @@ class CallMixin:
             self.havoc_value(params[parts[0]], parts[0])
             return
         obj = params[parts[0]]
+        if isinstance(obj, VOpt):
+            obj = obj.val  # an optional object passed where the callee dereferences it (guarded at the use site)
         for p in parts[1:-1]:
             obj = obj.fields[p] if isinstance(obj, VRec) else None
+            if isinstance(obj, VOpt):
+                obj = obj.val
             if obj is None:
                 raise Unsupported(f"{c.target}: cannot resolve modifies path {path!r}")
         last = parts[-1]
